@@ -6,6 +6,7 @@ pid="$1"; patch="$(readlink -f "$2")"; shift 2
 scratch="/tmp/mutrepo_$pid"
 mkdir -p "$scratch"
 rsync -a --delete --exclude target --exclude .git --exclude .verif_harness /repo/ "$scratch/"
+if ! (cd "$scratch" && patch -p1 -s --dry-run < "$patch" >/dev/null 2>&1); then echo "PATCH-DOES-NOT-APPLY to the current /repo (stale seed?)"; echo "mutcheck rc=3"; exit 3; fi
 (cd "$scratch" && patch -p1 -s < "$patch")
 cd /verif
 set +e
